@@ -48,6 +48,9 @@ func replPool() []string {
 		model.KwPrint + " " + model.BiInput + ";", // a built-in printed (no call)
 		"# @ # @ # @ # @ # @ # @ # @",             // a line with many lexical errors
 		"1 +; 2 +; ) ) ) ; ; ;",                   // a line with a syntax error followed by more garbage
+		// a literal too large for a double, declared, and used again in another statement form
+		model.KwVar + " big = " + strings.Repeat("9", 400) + ";",
+		model.KwPrint + " 1 / " + strings.Repeat("9", 400) + ";",
 		// a function whose body ends in a loop-less break / continue, called, followed by bare expressions
 		model.KwFun + " sb() { " + model.KwBreak + "; } sb(); 7;",
 		model.KwFun + " sc() { " + model.KwPrint + " 1; " + model.KwContinue + "; } 5; sc(); 6;",
